@@ -4,12 +4,13 @@ worktree and one program load per patch) and prints/records which checks report 
 usage: tools/matrix.py <out.json> <dir-with-patch.diff>..."""
 import json, os, re, subprocess, sys, concurrent.futures as cf
 V = os.path.dirname(os.path.dirname(os.path.abspath(__file__)))
+NCHK = len(json.load(open(os.path.join(V, "MANIFEST.json")))["checks"])
 def run(d):
     out = ""
     for attempt in range(4):
         p = subprocess.run([os.path.join(V, "tools", "mutant.sh"), os.path.join(d, "patch.diff"), "ALL"], capture_output=True, text=True, env=dict(os.environ, CUT="3000"))
         out = p.stdout
-        if out.count("\nproperty=") + out.startswith("property=") >= 18 or "PATCH DOES NOT APPLY" in out:
+        if out.count("\nproperty=") + out.startswith("property=") >= NCHK or "PATCH DOES NOT APPLY" in out:
             break
     res = {}
     cur = None
@@ -22,9 +23,9 @@ def run(d):
             if r and r.group(1) not in res[cur]: res[cur].append(r.group(1))
     ran = len(set(re.findall(r"^property=(C\d+)", out, re.M)))
     r = {"applies": "PATCH DOES NOT APPLY" not in out, "reported_by": res}
-    if r["applies"] and ran < 18:
+    if r["applies"] and ran < NCHK:
         # a check that did not finish (a crash of the analyser) must not pass for silence
-        r["incomplete"] = 18 - ran
+        r["incomplete"] = NCHK - ran
     return r
 def main():
     out = sys.argv[1]; dirs = sys.argv[2:]
